@@ -28,6 +28,7 @@ DEFAULT_KNOBS: Dict[str, Any] = {
     "p_save_delay": 0.2,
     "p_ack_delay": 0.3,
     "p_hook_raise": 0.0,
+    "p_cancel_fault": 0.0,      # an awaited hook / ack / set_result is cancelled from outside (CancelledError in the callback task)
     "p_timeout": 0.1,
     "p_sync": 0.15,
     "p_deps": 0.2,
@@ -297,6 +298,16 @@ def gen_worker_script(rs: int, knobs: Optional[dict] = None) -> dict:
                 if cands:
                     h, i = r.choice(cands)
                     m["hook_raise"] = [[h, i]]
+            if kn["p_cancel_fault"] and r.random() < kn["p_cancel_fault"]:
+                c = r.randint(0, 2)
+                cands = [(h, i) for i, mw in enumerate(mws) for h in mw.get("hooks", {}) if h in HOOKS_WORKER]
+                if c == 0 and cands:
+                    h, i = r.choice(cands)
+                    m["hook_raise"] = [[h, i, "cancel"]]
+                elif c == 1:
+                    m["ack"] = {"async": True, "cancel": True}
+                else:
+                    m["save"] = [{"cancel": True}]
         else:
             if r.random() < kn["p_save_delay"]:
                 m["save"] = [{"delay_us": duration(r, {"tiny": 2, "short": 3, "medium": 1})}]
